@@ -105,6 +105,9 @@ def main():
                 res = ["raise", type(e).__name__]
         elif op == "call":
             res = outcome(slots[req["slot"]], **req["fields"])
+        elif op == "burst":
+            ev = slots[req["slot"]]
+            res = [outcome(ev, **f) for f in req["fields"]]
         elif op == "drop":
             slots.pop(req["slot"], None)
             import gc
